@@ -22,7 +22,8 @@ OwnOids  == {OidKu, OidSan, OidEku, OidBc, OidNc, OidCrlDp, OidSki, OidAki}
 
 Count(exts, oid) == Cardinality({i \in DOMAIN exts : exts[i].oid = oid})
 Has(exts, oid)   == \E i \in DOMAIN exts : exts[i].oid = oid
-Ext(exts, oid)   == exts[CHOOSE i \in DOMAIN exts : exts[i].oid = oid]
+(* the first extension under the OID (rcgen writes its own extensions before the caller's) *)
+Ext(exts, oid)   == exts[CHOOSE i \in DOMAIN exts : exts[i].oid = oid /\ \A j \in DOMAIN exts : exts[j].oid = oid => i <= j]
 
 None == [k |-> "none", n |-> 0]
 Some(n) == [k |-> "some", n |-> n]
@@ -36,6 +37,10 @@ WantNc(p)    == p.nc.k = "some" /\ (p.nc.perm # <<>> \/ p.nc.excl # <<>>)
 WantCrlDp(p) == p.crldp # <<>>
 WantAki(p)   == p.aki
 CustomOids(p) == {p.custom[i].oid : i \in DOMAIN p.custom}
+(* Named behaviour: an extension of the caller's own is written as given even under the OID of an extension that a typed   *)
+(* field produces as well (the result then has the OID twice, which RFC 5280 4.2 forbids: the parameters were not conformant, *)
+(* and C02 still wants nothing dropped).                                                                                      *)
+CustomCount(p, oid) == Cardinality({i \in DOMAIN p.custom : p.custom[i].oid = oid})
 
 GName(v, val, b, oid, dn) == [v |-> v, val |-> val, b |-> b, oid |-> oid, dn |-> dn]
 UriName(h) == GName("uri", h, <<>>, "", <<>>)
@@ -59,40 +64,41 @@ ReqCertC02(a, o) ==
                              /\ InScope(p.na) => ReqTimeInstant(p.na, o.na)>>,
   <<"C02.subject_eq",        o.subject = p.dn /\ ~o.subjectMulti>>,
   <<"C02.spki_eq_subject_key",    o.spki.raw = a.subjectKey.spki>>,
-  <<"C02.san_iff_requested",      Count(x, OidSan) = (IF WantSan(p) THEN 1 ELSE 0)>>,
+  <<"C02.san_iff_requested",      Count(x, OidSan) = (IF WantSan(p) THEN 1 ELSE 0) + CustomCount(p, OidSan)>>,
   <<"C02.san_value_eq",      Has(x, OidSan) /\ WantSan(p) =>
                                Ext(x, OidSan).kind = "san" /\ Ext(x, OidSan).names = p.sans>>,
-  <<"C02.ku_iff_requested",       Count(x, OidKu) = (IF WantKu(p) THEN 1 ELSE 0)>>,
+  <<"C02.ku_iff_requested",       Count(x, OidKu) = (IF WantKu(p) THEN 1 ELSE 0) + CustomCount(p, OidKu)>>,
   <<"C02.ku_value_eq",       Has(x, OidKu) /\ WantKu(p) =>
                                Ext(x, OidKu).kind = "ku" /\ SeqRange(Ext(x, OidKu).bits) = SeqRange(p.ku)>>,
-  <<"C02.eku_iff_requested",      Count(x, OidEku) = (IF WantEku(p) THEN 1 ELSE 0)>>,
+  <<"C02.eku_iff_requested",      Count(x, OidEku) = (IF WantEku(p) THEN 1 ELSE 0) + CustomCount(p, OidEku)>>,
   <<"C02.eku_value_eq",      Has(x, OidEku) /\ WantEku(p) =>
                                Ext(x, OidEku).kind = "eku" /\ SeqRange(Ext(x, OidEku).oids) = SeqRange(p.eku)>>,
-  <<"C02.bc_iff_requested",       Count(x, OidBc) = (IF WantBc(p) THEN 1 ELSE 0)>>,
+  <<"C02.bc_iff_requested",       Count(x, OidBc) = (IF WantBc(p) THEN 1 ELSE 0) + CustomCount(p, OidBc)>>,
   <<"C02.bc_value_eq",       Has(x, OidBc) /\ WantBc(p) =>
                                /\ Ext(x, OidBc).kind = "bc"
                                /\ Ext(x, OidBc).ca = (p.isCa.k = "Ca")
                                /\ Ext(x, OidBc).pl = p.isCa.pl>>,
-  <<"C02.nc_iff_requested",       Count(x, OidNc) = (IF WantNc(p) THEN 1 ELSE 0)>>,
+  <<"C02.nc_iff_requested",       Count(x, OidNc) = (IF WantNc(p) THEN 1 ELSE 0) + CustomCount(p, OidNc)>>,
   <<"C02.nc_value_eq",       Has(x, OidNc) /\ WantNc(p) =>
                                /\ Ext(x, OidNc).kind = "nc"
                                /\ Ext(x, OidNc).perm = ExpSubtrees(p.nc.perm)
                                /\ Ext(x, OidNc).excl = ExpSubtrees(p.nc.excl)>>,
-  <<"C02.crldp_iff_requested",    Count(x, OidCrlDp) = (IF WantCrlDp(p) THEN 1 ELSE 0)>>,
+  <<"C02.crldp_iff_requested",    Count(x, OidCrlDp) = (IF WantCrlDp(p) THEN 1 ELSE 0) + CustomCount(p, OidCrlDp)>>,
   <<"C02.crldp_value_eq",    Has(x, OidCrlDp) /\ WantCrlDp(p) =>
                                Ext(x, OidCrlDp).kind = "crldp" /\ Ext(x, OidCrlDp).dps = ExpCrlDps(p.crldp)>>,
   (* a caller may hand in an extension of his own under the OID of the authority key identifier (it is written as given) *)
-  <<"C02.aki_iff_requested",      Count(x, OidAki) = (IF WantAki(p) THEN 1 ELSE 0) + (IF OidAki \in CustomOids(p) THEN 1 ELSE 0)>>,
+  <<"C02.aki_iff_requested",      Count(x, OidAki) = (IF WantAki(p) THEN 1 ELSE 0) + CustomCount(p, OidAki)>>,
   <<"C02.aki_value_eq",      Has(x, OidAki) /\ WantAki(p) /\ OidAki \notin CustomOids(p) =>
                                /\ Ext(x, OidAki).kind = "aki"
                                /\ Ext(x, OidAki).id = [k |-> "some", b |-> KeyId(a.issuer.kid, a.signerKey)]
                                /\ Ext(x, OidAki).n = 1>>,
   <<"C02.custom_present_value_criticality",   
                              \A i \in DOMAIN p.custom :
-                               /\ Count(x, p.custom[i].oid) = 1
-                               /\ Ext(x, p.custom[i].oid).crit = p.custom[i].crit
-                               /\ Ext(x, p.custom[i].oid).raw = p.custom[i].content>>,
-  <<"C02.ski_present_in_ca",      p.isCa.k = "Ca" => Count(x, OidSki) = 1>>,
+                               /\ p.custom[i].oid \notin OwnOids => Count(x, p.custom[i].oid) = CustomCount(p, p.custom[i].oid)
+                               /\ \E j \in DOMAIN x : /\ x[j].oid = p.custom[i].oid
+                                                       /\ x[j].crit = p.custom[i].crit
+                                                       /\ x[j].raw = p.custom[i].content>>,
+  <<"C02.ski_present_in_ca",      p.isCa.k = "Ca" => Count(x, OidSki) = 1 + CustomCount(p, OidSki)>>,
   <<"C02.ski_value_eq_method",    Has(x, OidSki) =>
                                Ext(x, OidSki).kind = "ski" /\ Ext(x, OidSki).id = KeyId(p.kid, a.subjectKey)>>,
   <<"C02.no_unrequested_ext",     \A i \in DOMAIN x : x[i].oid \in
@@ -104,7 +110,8 @@ ReqCertC02(a, o) ==
   <<"C02.key_identifier_echo",    /\ o.keyIdApi = KeyId(p.kid, a.subjectKey)
                                   /\ Has(x, OidSki) /\ Ext(x, OidSki).kind = "ski" => Ext(x, OidSki).id = o.keyIdApi>>,
   <<"C02.openssl_decodes",    o.opensslOk>>,
-  <<"C02.x509parser_decodes",    o.x509pOk>>
+  (* x509-parser refuses a certificate that has an extension OID twice *)
+  <<"C02.x509parser_decodes",    o.x509pOk \/ \E oid \in CustomOids(p) : Count(x, oid) > 1>>
   }
 
 ReqCertC03(a, o) == {
@@ -127,7 +134,8 @@ ReqCertC04(a, o) ==
                                  Ext(x, OidBc).seq =
                                    BcSeq(p.isCa.k = "Ca", p.isCa.k = "Ca" /\ p.isCa.pl.k = "some", p.isCa.pl.n)>>,
   <<"C04.custom_content_verbatim",    \A i \in DOMAIN p.custom :
-                                 Has(x, p.custom[i].oid) => Ext(x, p.custom[i].oid).raw = p.custom[i].content>>,
+                                 Has(x, p.custom[i].oid) =>
+                                   \E j \in DOMAIN x : x[j].oid = p.custom[i].oid /\ x[j].raw = p.custom[i].content>>,
   (* "time values in the exact RFC 5280 forms": seen from the bytes alone (C09 relates them to the input) *)
   <<"C04.validity_in_rfc5280_time_forms", ReqTimeShape(o.nb) /\ ReqTimeShape(o.na) /\ ReqTimeFormOfEncoded(o.nb) /\ ReqTimeFormOfEncoded(o.na)>>,
   <<"C04.no_trailing_bytes",    ~o.trailing>>
@@ -138,7 +146,7 @@ ReqCertC05(a, o) ==
   <<"C05.auto_serial_positive_nonzero_le20",    p.serial.k = "auto" =>
                                  IntNonNegative(o.serial) /\ Len(o.serial) <= 20 /\ IntMagnitude(o.serial) # <<>>>>,
   <<"C05.extensions_imply_v3",    o.hasExts => o.version = 3>>,
-  <<"C05.san_critical_iff_empty_subject",    Has(x, OidSan) => (Ext(x, OidSan).crit <=> p.dn = <<>>)>>,
+  <<"C05.san_critical_iff_empty_subject",    Has(x, OidSan) /\ WantSan(p) => (Ext(x, OidSan).crit <=> p.dn = <<>>)>>,
   <<"C05.bc_critical_in_ca",      p.isCa.k = "Ca" /\ Has(x, OidBc) => Ext(x, OidBc).crit>>,
   (* a certificate asked for as a CA is a CA certificate only through its basic constraints: without the extension the MUST cannot hold *)
   <<"C05.ca_carries_basic_constraints",    p.isCa.k = "Ca" /\ OidBc \notin CustomOids(p) => Has(x, OidBc)>>,
@@ -146,7 +154,7 @@ ReqCertC05(a, o) ==
   <<"C05.empty_nc_omitted",       p.nc.k = "some" /\ p.nc.perm = <<>> /\ p.nc.excl = <<>> => ~Has(x, OidNc)>>,
   <<"C05.key_ids_noncritical",    /\ Has(x, OidSki) => ~Ext(x, OidSki).crit
                                   /\ Has(x, OidAki) /\ OidAki \notin CustomOids(p) => ~Ext(x, OidAki).crit>>,
-  <<"C05.no_duplicate_own_oid",    \A oid \in OwnOids : Count(x, oid) <= 1>>,
+  <<"C05.no_duplicate_own_oid",    \A oid \in OwnOids : Count(x, oid) - CustomCount(p, oid) <= 1>>,
   <<"C05.exts_nonempty_if_present",    o.hasExts => x # <<>>>>
   }
 
